@@ -140,12 +140,26 @@ func (e *Env) isGlobEscaper(f *ssa.Function) bool {
 		return false
 	}
 	seen := map[string]bool{}
+	note := func(s string) {
+		for _, m := range []string{"\\", "*", "?", "["} {
+			if strings.Contains(s, m) {
+				seen[m] = true
+			}
+		}
+	}
 	for _, g := range ir.WithClosures(f) {
 		for _, b := range g.Blocks {
 			for _, in := range b.Instrs {
 				for _, op := range in.Operands(nil) {
 					if op == nil || *op == nil {
 						continue
+					}
+					// a package-level table (strings.NewReplacer(...), a map or slice
+					// literal) the helper applies: the constants of its initialiser count
+					if gl, ok := (*op).(*ssa.Global); ok && gl.Pkg != nil && e.P.Funcs[gl.Pkg.Func("init")] {
+						for _, s := range e.globalInitConsts(gl) {
+							note(s)
+						}
 					}
 					if s, ok := ir.ConstString(*op); ok {
 						for _, m := range []string{"\\", "*", "?", "["} {
@@ -168,6 +182,29 @@ func (e *Env) isGlobEscaper(f *ssa.Function) bool {
 		}
 	}
 	return len(seen) == 4
+}
+
+// globalInitConsts: string constants the package initialiser uses to build the
+// value stored into a package-level variable.
+func (e *Env) globalInitConsts(g *ssa.Global) []string {
+	initFn := g.Pkg.Func("init")
+	if initFn == nil {
+		return nil
+	}
+	var out []string
+	tr := &ir.Tracer{C: e.C, Through: map[string]bool{"strings.NewReplacer": true}}
+	for _, b := range initFn.Blocks {
+		for _, in := range b.Instrs {
+			if st, ok := in.(*ssa.Store); ok && st.Addr == ssa.Value(g) {
+				for _, l := range tr.Trace(st.Val) {
+					if s, ok := ir.ConstString(l.V); ok && l.Kind == "const" {
+						out = append(out, s)
+					}
+				}
+			}
+		}
+	}
+	return out
 }
 
 func c06Glob(e *Env) {
@@ -238,7 +275,14 @@ func c06Isolation(e *Env) {
 	r := e.R
 	r.Rule("C06.isolation", "VF", "destructive file operations act on paths derived from the operation's DAG argument", 4)
 	sp := e.P.Pkg(jsondbRel)
-	tr := &ir.Tracer{C: e.C, Through: ir.StringThrough, Descend: e.repoDescend}
+	// an escaping helper keeps the derivation of its argument
+	tr := &ir.Tracer{C: e.C, Through: ir.StringThrough, Descend: e.repoDescend,
+		Wrapper: func(c *ssa.Call) []ssa.Value {
+			if f := c.Call.StaticCallee(); e.isGlobEscaper(f) && len(f.Params) == 1 && len(c.Call.Args) == 1 {
+				return c.Call.Args
+			}
+			return nil
+		}}
 	for _, f := range e.RepoFuncsSorted() {
 		if rootFn(f).Package() != sp {
 			continue
